@@ -484,8 +484,6 @@ def get_fn_arity(f):
 
     NOTE: TODO: it maybe easier / better to do this at parse time vs late.
     """
-    if isinstance(f, KGFn) and isinstance(f.a, KGSym) and not in_map(f.a, reserved_fn_symbols):
-       return sum(1 for x in set(f.args) if in_map(x, reserved_fn_symbols) or (x is None))
     def _e(f, level=0):
         if isinstance(f, KGFn):
             x = _e(f.a, level=1)
